@@ -1091,6 +1091,14 @@ func (sc *serverConn) writeFrameFromHandler(wm frameWriteMsg) error {
 func (sc *serverConn) writeFrame(wm frameWriteMsg) {
 	sc.serveG.Check()
 
+	// A frame for a stream that has been reset is never written
+	// (startFrameWrite skips it). Drop it here, before the scheduler
+	// charges its DATA against the stream and connection flow-control
+	// windows.
+	if st := wm.stream; st != nil && st.state == stateClosed && (st.sentReset || st.gotReset) {
+		return
+	}
+
 	if wm.isControl() {
 		sc.queuedControlFrames++
 	}
